@@ -142,6 +142,7 @@ type RunOpts struct {
 	Jobs        int
 	KeepDir     string
 	MaxPaths    int
+	Kinds       map[string]bool
 }
 
 type RunResult struct {
@@ -168,6 +169,9 @@ func runVerification(o RunOpts) (*RunResult, error) {
 			continue
 		}
 		rr.Results = append(rr.Results, VerifyLemma(ld.Prog, db, lm))
+	}
+	if ld.Prog != nil {
+		autoGuardSweep(ld, o.Props)
 	}
 	for _, name := range db.Order {
 		fc := db.Funcs[name]
@@ -202,7 +206,7 @@ func runVerification(o RunOpts) (*RunResult, error) {
 	}
 	rr.Dir = dir
 	t1 := time.Now()
-	discharge(rr.Results, SolveOpts{Dir: dir, Timeout: o.Timeout, Portfolio: o.Portfolio, Jobs: o.Jobs})
+	discharge(rr.Results, SolveOpts{Dir: dir, Timeout: o.Timeout, Portfolio: o.Portfolio, Jobs: o.Jobs, Kinds: o.Kinds})
 	rr.SolveSeconds = time.Since(t1).Seconds()
 	return rr, nil
 }
